@@ -457,6 +457,20 @@ func famC18(r *Run) {
 			}
 		}
 	}
+	famSameNameTypes(r)
+	for n := 0; n <= 4; n++ {
+		arr := make([]interface{}, n)
+		for i := range arr {
+			arr[i] = float64(i)
+		}
+		for a := -n - 1; a <= n+1; a++ {
+			for b := -n - 1; b <= n+1; b++ {
+				for _, c := range []string{"", ":1", ":-1", ":2", ":-2", ":3"} {
+					r.typedSliceTwins("typed-slice-window", fmt.Sprintf("[%d:%d%s]", a, b, c), arr)
+				}
+			}
+		}
+	}
 }
 
 // goModelable: the expression stays inside the fragment Model/GoVal.v covers
